@@ -5,6 +5,8 @@ CONSTANTS
   MCKinds <- KindsAll
   Classes <- LiftedClasses
   MCFuns <- EveryFun
+  MCHows <- EveryHow
   Canonical = TRUE
+  AliasInit = FALSE
   EmitOn = TRUE
 ACTION_CONSTRAINT Emit
